@@ -180,6 +180,11 @@ var intBuiltinCtxs = []string{
 	"_ = [](int){%s}", "_ = *(&[]int{%s}[0])", "_ = func() (int, string) { return %s, \"a\" }", "_ = func() (string, int) { return \"a\", %s }", "gi++; _ = %s", "gi <<= %s",
 	"if v := %s; v > 0 {\n\t}", "for i := %s; i < 3; i++ {\n\t}", "switch v := interface{}(%s).(type) {\n\tcase int:\n\t\t_ = v\n\t}", "select {\n\tcase gch <- %s:\n\tdefault:\n\t}",
 	"var _ = [...]func(int){func(int) {}}[0]; takeFn(func(int) {}, %s)", "_ = gfv(%s)", "_ = idG(%s)", "_ = idG[int](%s)", "Str{}.Take(%s)", "(*PS).Take(&PS{}, %s)", "_ = PS.Get(PS{}) + %s",
+	// a return operand of a function literal BEHIND an inner literal that has ended in it (the function around a statement is the innermost
+	// one on the path to it, not the one entered last); sites() itself has no results
+	"_ = func() (string, int) { _ = func() {}; return \"a\", %s }", "_ = func() int { func() {}(); return %s }",
+	"_ = func() (a, b string, c int) { h := func() int { return 1 }; _ = h; defer func() {}(); return \"\", \"\", %s }",
+	"takeFn(func(int) { _ = func() (int, int) { go func() {}(); return 1, %s } }, 1)",
 }
 
 type shape struct {
